@@ -922,7 +922,7 @@ class Evaluator:
             return self.ex.contract.consts[n.id]
         if n.id in ("True", "False", "None"):
             return {"True": True, "False": False, "None": None}[n.id]
-        if n.id in BUILTIN_NAMES:
+        if n.id in BUILTIN_NAMES or n.id in self.ex.contract.handlers:
             return Builtin(n.id)
         if self.spec_mode and n.id in self.ex.contract.lets:
             return self.ex.spec(self.st, self.ex.contract.lets[n.id], extra_env=self.extra, old=self.old)
@@ -1317,6 +1317,49 @@ class Evaluator:
     def e_Lambda(self, n):
         raise Outside("lambda")
 
+    def e_GeneratorExp(self, n):
+        """(elt for v in range(a, b)) -> symbolic sequence; the element expression is evaluated once on a generic index for
+        its well-definedness obligations, and lazily (as a spec expression) for each access"""
+        if len(n.generators) != 1 or n.generators[0].ifs or n.generators[0].is_async:
+            raise Outside("generator expression form")
+        g = n.generators[0]
+        if not (isinstance(g.iter, ast.Call) and isinstance(g.iter.func, ast.Name) and g.iter.func.id == "range" and isinstance(g.target, ast.Name)):
+            raise Outside("generator over a non-range")
+        args = [self.eval(a) for a in g.iter.args]
+        lo, hi = (0, args[0]) if len(args) == 1 else (args[0], args[1])
+        if len(args) == 3:
+            raise Outside("generator over a stepped range")
+        length = simp(z3.If(Z(hi) > Z(lo), Z(hi) - Z(lo), 0)) if (is_z3(hi) or is_z3(lo)) else max(0, hi - lo)
+        if not self.spec_mode:
+            j0 = fresh(g.target.id + "_any")
+            sub = self.st.copy()
+            sub.env = dict(self.st.env)
+            self.st.assume(z3.And(j0 >= Z(lo), j0 < Z(hi))) if False else None
+            gst = self.st
+            saved = gst.env.get(g.target.id, None)
+            had = g.target.id in gst.env
+            gst.pc.append(z3.And(j0 >= Z(lo), j0 < Z(hi)))
+            gst.env[g.target.id] = j0
+            try:
+                Evaluator(self.ex, gst).eval(n.elt)
+            finally:
+                gst.pc.pop()
+                if had:
+                    gst.env[g.target.id] = saved
+                else:
+                    gst.env.pop(g.target.id, None)
+        snap_env = dict(self.st.env)
+        snap_fields = self.st.fields
+        ex, outer = self.ex, self
+
+        def getter(j):
+            st2 = outer.st.copy()
+            st2.env = dict(snap_env)
+            st2.env[g.target.id] = simp(Z(lo) + Z(j))
+            return Evaluator(ex, st2, spec_mode=True, extra_env=outer.extra, old=outer.old).eval(n.elt)
+
+        return SeqVal(length, getter)
+
 
 def _frac(v):
     from decimal import Decimal
@@ -1433,6 +1476,10 @@ def Executor_call_builtin(self, name, st, args, kwargs, node, ev):
     if name == "float":
         (a,) = args
         return to_real(a) if is_z3(a) else Fraction(a)
+    if name in ("tuple", "list") and len(args) == 1 and isinstance(args[0], SeqVal):
+        return args[0]
+    if name == "tuple" and len(args) == 1 and isinstance(args[0], (tuple, list)):
+        return tuple(args[0])
     if name == "bool":
         return simp(Zb(args[0]))
     if name in ("np.ceil", "math.ceil"):
